@@ -388,6 +388,14 @@ fn bit_strategy(bes: &'static [Be]) -> BoxedStrategy<BitCase> {
         .boxed()
 }
 
+pub fn word_strategy_c17() -> BoxedStrategy<WordCase> {
+    word_strategy(0.15, BES3)
+}
+
+pub fn bit_strategy_c17() -> BoxedStrategy<BitCase> {
+    bit_strategy(BES3)
+}
+
 pub const BES3: &[Be] = &[Be::FftRef, Be::FftAvx, Be::NttRef];
 
 pub fn run(ctx: &Ctx) {
